@@ -98,6 +98,9 @@ func rangeLabels(rs []Range, l map[string]bool) (longQ, zeroQ bool) {
 		if r.Q.NoLead && strings.HasPrefix(r.Q.Text(), ".") {
 			l["q without leading 0"] = true
 		}
+		if r.Q.Free == "" && r.HasQ && r.Q.Milli == 0 && r.Q.Tail != "" {
+			l["positive weight below 0.001"] = true
+		}
 		if r.Q.Free == "" && r.Zero() {
 			zeroQ = true
 			l["q=0 range"] = true
